@@ -119,13 +119,15 @@ PROPS = {
                         "brackets of two events never interleave; emission order of sends; processing stacks supplied via Module::stack"],
     },
     "C07": {
-        "bundles": ["chanbuf"],
-        "fns": {"chanbuf": ["Buffer::enqueue", "Buffer::dequeue", "ChannelDropBehaviour::handle", "Message::length"]},
-        "assumptions": ["opaque shims Header/Body/Connection; Body::length = declared length (Kani unit body)", "std: Option::map_or, VecDeque push_back/pop_front (vstd)", "mem::drop of a message has no effect on the buffer",
+        "bundles": ["chanbuf", "chansend"],
+        "fns": {"chanbuf": ["Buffer::enqueue", "Buffer::dequeue", "ChannelDropBehaviour::handle", "Message::length"], "chansend": ["Channel::send_message"]},
+        "assumptions": ["unit chansend (Channel::send_message): the state behind the RwLock is read once (R17 `self.inner.write().unwrap()` -> chan_write: busy flag and metrics 'at entry' are uninterpreted functions of the channel); ChannelMetrics::calculate_busy / calculate_duration (f64 arithmetic, jitter from the global RNG) are uninterpreted functions of (metrics, message); SimTime::now / SimTime + Duration uninterpreted; the probe and the drop policy do not touch the sink (they have no access to it); `self.set_busy_until(t)` is recorded in a ghost list of the sink at the real call site (R17) and ASSUMED to set busy = true, transmission_finish_time = t; Arc::clone yields the same channel; Duration != Duration::ZERO compares nanoseconds",
+                        "opaque shims Header/Body/Connection; Body::length = declared length (Kani unit body)", "std: Option::map_or, VecDeque push_back/pop_front (vstd)", "mem::drop of a message has no effect on the buffer",
                         "precondition: accumulated bytes + message length <= usize::MAX (the comparison `acc_bytes + msg.length() > limit` is otherwise an overflow)", "configuration verified: feature `tracing` off (cfg'd statements are stripped)"],
-        "not_covered": ["BOUNDED only (replay/net_driver, never counted as proved): Channel::send_message / unbusy — busy exactly for size*8/bitrate, delivery at start + busy + latency, delivered exactly once, Drop/Queue policies end to end, FIFO restart the instant the channel is idle, zero jitter; these functions (Arc<Self> + RwLock + global RNG + dyn probe, f64 arithmetic) are outside the verifier's reach",
+        "not_covered": ["proved for Channel::send_message only as a DECISION: busy at entry => nothing scheduled, channel not re-marked; idle => marked busy until now + calculate_busy (not marked if that is 0 ns), exactly one unbusy notification at that time, exactly one MessageExitingConnection{via, msg} at now + calculate_duration. That calculate_busy = size*8/bitrate and calculate_duration = that + latency + jitter is NOT proved (f64): BOUNDED only (replay/net_driver)",
+                        "BOUNDED only (replay/net_driver, never counted as proved): Channel::unbusy (loop over RwLock state: FIFO restart the instant the channel is idle), ChannelMetrics arithmetic, Drop/Queue policies end to end, delivered exactly once end to end, zero jitter",
                         "BOUNDED only (net_driver): with jitter > 0 every delivery lies in [start + size*8/bitrate + latency, ... + jitter) (sends 100 s apart; the distribution inside the window is not examined); busy times that round to 0 ns at very high bitrates (finding F4)",
-                        "only the queue/drop accounting of C07 is claimed: Buffer invariant, FIFO, Drop and Queue(limit) policies"],
+                        "claimed as proved: the queue/drop accounting (Buffer invariant, FIFO, Drop and Queue(limit) policies) and the transmit decision of send_message"],
     },
     "C12": {
         "bundles": ["moduletree", "lifecycle"],
